@@ -651,3 +651,38 @@ Proof. exact ex_styled_to_stl. Qed.
 Example C07_ttx_styled_example_vtt : cues_classless ex_classless_cs = true /\ exists dst, convert_ttx_vtt ex_classless = Ok dst /\
   vtt_dec dst = Ok [ (0%Z, 2000000000%Z, [[72;101;108;108;111;98;108;117;101;119;104;105;116;101]; [103;114;101;101;110]]); (2000000000%Z, 3500000000%Z, [[66;73;71]]) ]%N.
 Proof. split; [exact (proj1 ex_classless_ok) | exact ex_classless_to_vtt]. Qed.
+
+(* ---- CORRECTION to the comment above C07_vtt_to_srt (second audit, item (i)6), and the wider theorem ----
+   The comment says "voices, comments, settings, regions, inline timestamps are fine".  Inline timestamps are NOT: a
+   timestamp splits a line into two untagged runs, conv_vs then has two adjacent unstyled SubRip runs, which repr_item
+   excludes (no_adj).  C07_vtt_to_srt therefore covers exactly the documents whose every line is ONE untagged run (voices,
+   comments, settings, regions are fine).  The theorem below covers the rest: the SubRip writer emits an attribute-less
+   styled run exactly like an unstyled one, so the library's bytes are those of the MERGED conversion conv_vs_m (each line
+   one unstyled run holding the line's text; C07_vtt_to_srt_merged_bytes) provided no run text ends with the byte 0xC2
+   (vs_join_ok: the writer escapes run by run and the no-break space is C2 A0; every valid UTF-8 text satisfies it), and
+   the representability hypothesis is asked of conv_vs_m.  Tags, classes, voices, inline timestamps, settings, regions,
+   comments, STYLE blocks are all covered (C07_vtt_to_srt_styled_example: the worked document of C02, for which conv_vs is
+   not representable). *)
+From Astisub Require Import Proofs.ConvVttSrtStyled.
+Theorem C07_vtt_to_srt_merged_bytes : forall d, vs_join_ok d = true -> write_srt (conv_vs d) = write_srt (conv_vs_m d).
+Proof. exact write_conv_vs_m. Qed.
+Print Assumptions C07_vtt_to_srt_merged_bytes.
+Theorem C07_vtt_to_srt_styled : forall d so ro,
+  repr_vdoc d so ro -> vs_join_ok d = true -> Forall repr_item (conv_vs_m (ndoc d so ro)) ->
+  exists vtt srt l', write_vtt d so ro = Ok vtt /\ convert_vtt_srt vtt = Ok srt /\ read_srt srt = Ok l' /\
+                     map sview l' = map vview_ms (vd_items (ndoc d so ro)) /\
+                     length l' = length (vd_items d).
+Proof. exact vtt_to_srt_styled. Qed.
+Print Assumptions C07_vtt_to_srt_styled.
+Example C07_vtt_to_srt_styled_example :
+  repr_vdoc VttDoc.ex_doc VttDoc.ex_so VttDoc.ex_ro /\ vs_join_ok VttDoc.ex_doc = true /\ Forall repr_item (conv_vs_m (ndoc VttDoc.ex_doc VttDoc.ex_so VttDoc.ex_ro)) /\
+  forallb repr_itemb (conv_vs (ndoc VttDoc.ex_doc VttDoc.ex_so VttDoc.ex_ro)) = false.
+Proof. exact ex_vtt_to_srt_styled_hyps. Qed.
+
+(* ---- CORRECTION to the header of this file (second audit, N14) ----
+   The header ends with "The other format pairs and the CLI are decided on the implementation by the harness ...:
+   correspondence/exploration, not proof."  That sentence is stale: every pair among SubRip, WebVTT, SSA/ASS, EBU STL, TTML
+   (and teletext as a source) is covered by C07_pair / C07_pair_ops / C07_any_source with the C07_*_plain_faithful
+   instances (unstyled content, any operation sequence), the command-line tool by C07_cli, and styled sources by the
+   C07_*_styled theorems of this file (srt->vtt, vtt->srt, ssa<->vtt, ttml->vtt, ttml->ssa, stl / ttml / ssa -> srt, and the
+   pairs of the STL and TTML slices), each tied to the library by a byte comparison on generated styled sources. *)
